@@ -856,3 +856,66 @@ def interpreter_handler_value(repo, crm, ei, rule):
                         if len(irets) == 1 and isinstance(irets[0], ast.Name) and irets[0].id == g.params[0]:
                             return v.args[0]
     return None
+
+
+def run_theta_sentinels(chk, repo, rid):
+    """NM-TRAN reads a lower bound of -1000000 and an upper bound of 1000000 as "no bound". The digits are lexed as an ordinary
+    NUMERIC (the NEG_INF / POS_INF terminals only match the words), so every place that turns the raw bound token of a theta
+    into a bound (the reader `bounds`, and the writer `update`, which compares the written bound with the parameter's to keep
+    the spelling of an unchanged bound) has to compare the token value with MIN_LOWER_BOUND / MAX_UPPER_BOUND itself"""
+    R = chk.rule(rid, 'ThetaRecord: where a raw bound token is turned into a bound (mapped to +-infinity) it is compared for '
+                      'equality with the sentinel -1000000 / 1000000', floor=4)
+    tm = repo.module('pharmpy.model.external.nonmem.records.theta_record')
+    SENT = {'upper_token': ('MAX_UPPER_BOUND', 1000000), 'lower_token': ('MIN_LOWER_BOUND', -1000000)}
+
+    def const_is(e, name, val):
+        if isinstance(e, ast.Name) and e.id == name:
+            return True
+        if isinstance(e, ast.Attribute) and e.attr == name:
+            return True
+        try:
+            v = ast.literal_eval(e)
+            return isinstance(v, (int, float)) and float(v) == float(val)
+        except Exception:
+            return False
+
+    def compares(fnode, names_, name, val):
+        for c in ast.walk(fnode):
+            if isinstance(c, ast.Compare) and len(c.ops) == 1 and isinstance(c.ops[0], (ast.Eq, ast.GtE, ast.LtE, ast.In)):
+                sides = [c.left, c.comparators[0]]
+                has_tok = any((isinstance(x, ast.Name) and x.id in names_) or (
+                    isinstance(x, ast.Call) and dotted(x.func) in SENT) for x in sides)
+                has_const = any(const_is(x, name, val) for x in sides) or any(
+                    isinstance(x, (ast.Tuple, ast.Set, ast.List)) and any(const_is(e, name, val) for e in x.elts) for x in sides)
+                if has_tok and has_const:
+                    return True
+        return False
+    n = 0
+    for f in dict.values(tm.functions):
+        if f.name in SENT:
+            continue
+        src_ = unparse(f.node)
+        if 'INF' not in src_ and "float('inf')" not in src_ and 'math.inf' not in src_:
+            continue
+        own_nested = [g_ for g_ in ast.walk(f.node) if isinstance(g_, ast.FunctionDef) and g_ is not f.node]
+        for helper, (cname, val) in SENT.items():
+            calls = [c for c in ast.walk(f.node) if isinstance(c, ast.Call) and dotted(c.func) == helper
+                     and not any(c is x for g_ in own_nested for x in ast.walk(g_))]
+            if not calls:
+                continue
+            toks = {a.targets[0].id for a in ast.walk(f.node) if isinstance(a, ast.Assign) and len(a.targets) == 1
+                    and isinstance(a.targets[0], ast.Name) and isinstance(a.value, ast.Call) and dotted(a.value.func) == helper}
+            n += 1
+            hf = tm.functions.get(helper)
+            ok = compares(f.node, toks, cname, val) or (hf is not None and any(
+                const_is(x, cname, val) for x in ast.walk(hf.node)))
+            chk.instance(R, f'{f.qualname}: {helper}(..) compared with {cname}: {ok}')
+            if not ok:
+                chk.violation(R, tm.rel, f.qualname, f'{helper}(theta) never compared with {cname}',
+                              f'a bound written as {val} (or 1E6) is an ordinary NUMERIC token: without the comparison it is '
+                              f'taken as a finite bound', line=calls[0].lineno,
+                              witness='$THETA (-1000000,1,1000000): the parameter gets finite bounds +-1000000 instead of none; '
+                                      '$THETA (0,2,1000000) (0,3) and an edit of the second theta: the first is rewritten '
+                                      'to (0,2)')
+    if n < 4:
+        raise AnalysisError(f'{rid}: only {n} bound-token conversions found in theta_record.py')
